@@ -1,7 +1,7 @@
 (* Property C02 -- theorems only.  Gen/ModelFuncs.v is re-translated from the
    model_func bodies of the working tree on every run. *)
 From Coq Require Import Reals.
-From NV Require Import Base.RealExtra Gen.ModelFuncs Model.Formulas Proofs.FormulasP.
+From NV Require Import Base.RealExtra Gen.ModelFuncs Model.Formulas Proofs.FormulasP Proofs.SeriesIntervalP.
 Local Open Scope R_scope.
 
 (* each shipped model = its published closed form in contact + baseline,
